@@ -252,8 +252,8 @@ def interval(ctx, fn):
             ctx.prove(not k.sleeps, "nonblocking-never-sleeps")
 
 
-@harness("C07.proc_percent", quick=[dict(D=D, ncpu=n) for D in (0, 1, "1/1000") for n in (1, 4)] + [dict(D=1, ncpu=2, modes=m) for m in ("nbn", "bnn", "bbn", "nbb")],
-         thorough=[dict(D=D, ncpu=n) for D in (0, 1, "1/1000", "7/2", 86400) for n in (1, 2, 4, 64)] + [dict(D=D, ncpu=n, modes=m) for D in (1, "1/1000") for n in (1, 4) for m in ("nbn", "bnn", "bbn", "nbb", "bnb", "bbb")])
+@harness("C07.proc_percent", quick=[dict(D=D, ncpu=n) for D in (0, 1, "1/1000") for n in (1, 4)] + [dict(D=1, ncpu=2, modes=m) for m in ("nbn", "bnn", "bbn", "nbb", "nfn", "bfn")],
+         thorough=[dict(D=D, ncpu=n) for D in (0, 1, "1/1000", "7/2", 86400) for n in (1, 2, 4, 64)] + [dict(D=D, ncpu=n, modes=m) for D in (1, "1/1000") for n in (1, 4) for m in ("nbn", "bnn", "bbn", "nbb", "bnb", "bbb", "nfn", "bfn", "nfb", "nffn")])
 def proc_percent(ctx, D, ncpu, modes="nnn"):
     """Process.cpu_percent() = 100 * (CPU seconds used) / (wall seconds elapsed) since the previous call on that object (whether
     that call was blocking or not); a blocking call measures its own interval; 0.0 on the first non-blocking call and when no wall
@@ -270,7 +270,12 @@ def proc_percent(ctx, D, ncpu, modes="nnn"):
     t0 = ctx.real("t0", 0, 10**9)
     state = {"i": 0}
     simk.full_process(k, 77)
-    k.files["/proc/77/stat"] = lambda: simk.stat_record(k, 77, b"cat", b"S", {4: 1, 14: u[state["i"]], 15: s[state["i"]], 22: 5000})
+    def stat_file():
+        if state.get("denied"):
+            raise simk.oserr(13, "/proc/77/stat")
+        return simk.stat_record(k, 77, b"cat", b"S", {4: 1, 14: u[state["i"]], 15: s[state["i"]], 22: 5000})
+
+    k.files["/proc/77/stat"] = stat_file
     plain_sleep = k.sleep
 
     def sleep(d):                  # while the caller sleeps the process goes on ticking: the next sample is a new one
@@ -287,18 +292,29 @@ def proc_percent(ctx, D, ncpu, modes="nnn"):
                 k.now = k.now + D
                 state["i"] += 1
             start = (k.now, state["i"])
+            if m == "f":           # a call that fails: the stat record is refused (EACCES) for its duration
+                state["denied"] = True
+                try:
+                    p.cpu_percent(None)
+                    failed = False
+                except psutil.AccessDenied:
+                    failed = True
+                state["denied"] = False
+                ctx.prove(failed, "proc-denied-call-raises-AccessDenied")
+                continue           # the next call is measured against the last call that completed
             r = p.cpu_percent(float(D) if D.denominator in (1, 2) else D) if m == "b" else p.cpu_percent(None)
             end = (k.now, state["i"])
             results.append((r, m, start if m == "b" else prev, end))
             prev = end
     ctx.observe("proc_percent", tuple(r for r, *_ in results))
     for j, (r, m, ref, end) in enumerate(results):
+        j = [i_ for i_, c_ in enumerate(modes) if c_ != "f"][j]
         if ref is None:
             ctx.prove(ctx.eq(r, 0), "proc-first-call-zero")
             continue
         wall = end[0] - ref[0]
         dp = (u[end[1]] - u[ref[1]]) + (s[end[1]] - s[ref[1]])
-        tag = "" if modes == "nnn" else "[after-blocking-call]" if j and modes[j - 1] == "b" and m == "n" else "[blocking]" if m == "b" else ""
+        tag = "" if modes == "nnn" else "[after-a-failed-call]" if "f" in modes else "[after-blocking-call]" if j and modes[j - 1] == "b" and m == "n" else "[blocking]" if m == "b" else ""
         if wall == 0:
             ctx.prove(ctx.eq(r, 0), "proc-zero-wall-zero")
         elif ctx.symbolic:
